@@ -743,9 +743,10 @@ func (s *Subscription) processModelEvent(event *rescache.ResourceEvent) {
 
 		// Check for removing changed references after adding references to avoid unsubscribing to
 		// a resource that is going to be subscribed again because it has moved between properties.
-		// It is also done after the added references are counted as sent, as
-		// a resource reachable through both a removed and an added reference
-		// would otherwise be considered no longer sent to the client.
+		// If nothing has to be loaded, it is also done after the added
+		// references are counted as sent, as a resource reachable through both
+		// a removed and an added reference would otherwise be considered no
+		// longer sent to the client.
 		removeOld := func() {
 			for k := range ch {
 				if ov, ok := old[k]; ok && ov.Type == codec.ValueTypeReference {
@@ -778,6 +779,10 @@ func (s *Subscription) processModelEvent(event *rescache.ResourceEvent) {
 		for _, sub := range subs {
 			s.refs[sub.rid].pending = true
 		}
+		// The added references are not counted as sent until the event is
+		// sent. A resource also held through a replaced reference is marked
+		// as unsent by its removal, and sent again with the event.
+		removeOld()
 		for _, sub := range subs {
 			sub.OnReady(func() {
 				// Assert client is not disposed
@@ -808,10 +813,6 @@ func (s *Subscription) processModelEvent(event *rescache.ResourceEvent) {
 				for _, sub := range subs {
 					s.refs[sub.rid].pending = false
 				}
-				// Remove the replaced references before releasing the new
-				// ones, as that may process queued events of other
-				// subscriptions, which must see what the client now holds.
-				removeOld()
 				for _, sub := range subs {
 					sub.ReleaseRPCResources()
 				}
